@@ -13,7 +13,7 @@ engines = {}
 for pr in props:
     pid = pr['id']
     frag = f'{root}/props/{pid.lower()}/manifest.json'
-    if not os.path.exists(frag):
+    if not os.path.exists(frag) or not os.path.exists(f"{root}/props/{pid.lower()}/READY"):
         na.append({"property_id": pid, "reason": na_reasons.get(pid, "no check built yet in this session (planned in DESIGN.md §6); not claimed")})
         continue
     f = json.load(open(frag))
